@@ -126,6 +126,16 @@ def run(ctx):
             st = lc.decide(ctx, exe, "C12g%d" % (s // step), groups[s:s + step], MODE, known, nontrivial=nontrivial)
             for k in st:
                 tot[k] = tot.get(k, 0) + st[k]
+        # printable keys that look like hex literals (journal key encodings must not confuse them)
+        hex_keys = [b"0x", b"0xab12", b"0xC0FFEE", b"0x6162", b"ab", b"0"]
+        saved = lc.KEYS
+        lc.KEYS = hex_keys
+        try:
+            hk = [[gen_c12(r, r.randrange(2, 5))] for _ in range(25 if ctx.quick else 300)]
+        finally:
+            lc.KEYS = saved
+        sth = lc.decide(ctx, exe, "C12h", hk, MODE, known, keys=hex_keys, nontrivial=nontrivial)
+        dist["hexlike_keys"] = sth
         saved = lc.KEYS
         lc.KEYS = bad_keys
         try:
